@@ -32,7 +32,21 @@ theorem good_not_scopePanic {m : String} (h : Good (.internal m)) : ¬ ScopePani
   rintro (rfl | rfl | rfl)
   · exact h.1 rfl
   · exact h.2.1 rfl
-  · exact h.2.2 rfl
+  · exact h.2.2.1 rfl
+
+/-- the four panics of the object / environment primitives: `ThunkEnv::data` on an environment whose
+    data is not set, `get_layer` with a bad index, `layer.base_env.unwrap()` in
+    `get_object_layer_env`, `field.expr.unwrap()` in `find_object_field_thunk` -/
+def ObjPanic (m : String) : Prop :=
+  m = "env data not set" ∨ m = "bad layer index" ∨ m = "layer without base env" ∨
+  m = "field without expression"
+
+theorem good_not_objPanic {m : String} (h : Good (.internal m)) : ¬ ObjPanic m := by
+  rintro (rfl | rfl | rfl | rfl)
+  · exact h.2.2.2.1 rfl
+  · exact h.2.2.2.2.1 rfl
+  · exact h.2.2.2.2.2.1 rfl
+  · exact h.2.2.2.2.2.2 rfl
 
 /-- **C09 (run time), one evaluator task.** From a well-scoped store, a task whose expression (if
     it evaluates one) is well scoped in a sound static view of its environment never ends in a
@@ -130,6 +144,123 @@ theorem C09_eval_request_keeps_scoped (cfg : Cfg) (fuel : Nat) (t : TId) (st : S
       | unsupported m => exact .inl (this.2 trivial).restore
       | rt k d => exact .inl (this.2 trivial).restore
 
+/-! ### Towards C01 on the evaluator model: more panic sites that are never reached -/
+
+/-- **C01 (evaluator model), part.** For every closed program accepted by the analyzer, every frame
+    limit and fuel, the run never ends in one of the three scoping panics nor in one of the four
+    panics of the object / environment primitives (`ObjPanic`).  The store invariant `Scoped` also
+    says: every object layer that has an assert or a field without environment of its own has a
+    base environment, a field without thunk has an expression, and the static part of an object
+    (hence its number of layers) never changes (`Scope.LayerShape`, `Scope.S`). -/
+theorem C01_eval_no_internal_error_partial (e : Expr)
+    (h : analyze e { isObj := false, vars := ["std"] } = .ok ()) (cfg : Cfg) (fuel : Nat)
+    (m : String) (hm : ScopePanic m ∨ ObjPanic m) (st' : St) :
+    programProg cfg fuel e {} ≠ some (.error (.internal m), st') := by
+  intro hx
+  have hws : WS e rootEnv := (analyze_iff e rootEnv).1 h
+  have := sem_of_triple (P := fun x => x = ({} : St)) (Qok := fun _ s' => S {} s' ∧ Scope.Inv s' ∧ True)
+    (Qerr := fun e s' => Good e ∧ (NonPanic e → Scope.Inv s')) (programProg_spec cfg fuel e {} Inv_empty hws) {} rfl
+  rw [hx] at this
+  rcases hm with hm | hm
+  · exact good_not_scopePanic this.1 hm
+  · exact good_not_objPanic this.1 hm
+
+/-- the same for one request on a long-lived well-scoped store -/
+theorem C01_eval_request_no_internal_error_partial (cfg : Cfg) (fuel : Nat) (t : TId) (st : St)
+    (hI : Scoped st) (m : String) (hm : ScopePanic m ∨ ObjPanic m) (st' : St) :
+    requestProg cfg fuel t st ≠ some (.error (.internal m), st') := by
+  intro hx
+  have := sem_of_triple (P := fun x => x = st) (Qok := fun _ s' => S st s' ∧ Scope.Inv s' ∧ True)
+    (Qerr := fun e s' => Good e ∧ (NonPanic e → Scope.Inv s')) (requestProg_spec cfg fuel t st hI) st rfl
+  rw [hx] at this
+  rcases hm with hm | hm
+  · exact good_not_scopePanic this.1 hm
+  · exact good_not_objPanic this.1 hm
+
+/-- number of arguments of a builtin -/
+def builtinArity : Builtin → Nat
+  | .length | .type_ => 1
+  | .trace | .objectFieldsEx | .map | .makeArray => 2
+  | .objectHasEx => 3
+
+def exprsLength : Exprs → Nat
+  | .nil => 0
+  | .cons _ rest => exprsLength rest + 1
+
+def specsStartWithFor : Specs → Prop
+  | .for_ _ _ _ => True
+  | _ => False
+
+mutual
+  /-- what the parser and the desugaring guarantee and the analyzer does not check: builtins are
+      applied to the right number of arguments, comprehensions start with a `for` clause -/
+  def CoreShaped : Expr → Prop
+    | .null | .true_ | .false_ | .self_ | .dollar | .str _ | .num _ | .superField _ | .var _
+    | .importLit _ | .importTextBlock _ => True
+    | .paren e | .field e _ | .unary _ e | .error_ e | .inSuper e | .superIndex e | .importComputed _ e =>
+      CoreShaped e
+    | .object ms => CoreShapedMembers ms
+    | .objectComp locals name _ body spec =>
+      CoreShapedBinds locals ∧ CoreShaped name ∧ CoreShaped body ∧ specsStartWithFor spec ∧ CoreShapedSpecs spec
+    | .array items => CoreShapedExprs items
+    | .arrayComp body spec => CoreShaped body ∧ specsStartWithFor spec ∧ CoreShapedSpecs spec
+    | .index e i => CoreShaped e ∧ CoreShaped i
+    | .slice e a b c => CoreShaped e ∧ CoreShapedOpt a ∧ CoreShapedOpt b ∧ CoreShapedOpt c
+    | .call callee args _ => CoreShaped callee ∧ CoreShapedArgs args
+    | .local_ bs body => CoreShapedBinds bs ∧ CoreShaped body
+    | .if_ c t e => CoreShaped c ∧ CoreShaped t ∧ CoreShapedOpt e
+    | .binary _ a b => CoreShaped a ∧ CoreShaped b
+    | .objExt e ms => CoreShaped e ∧ CoreShapedMembers ms
+    | .func ps body => CoreShapedParams ps ∧ CoreShaped body
+    | .assert_ c m inner => CoreShaped c ∧ CoreShapedOpt m ∧ CoreShaped inner
+    | .builtin b args => exprsLength args = builtinArity b ∧ CoreShapedExprs args
+  def CoreShapedOpt : OptExpr → Prop
+    | .none => True
+    | .some e => CoreShaped e
+  def CoreShapedExprs : Exprs → Prop
+    | .nil => True
+    | .cons e rest => CoreShaped e ∧ CoreShapedExprs rest
+  def CoreShapedArgs : Args → Prop
+    | .nil => True
+    | .pos e rest => CoreShaped e ∧ CoreShapedArgs rest
+    | .named _ e rest => CoreShaped e ∧ CoreShapedArgs rest
+  def CoreShapedBinds : Binds → Prop
+    | .nil => True
+    | .cons _ ps e rest => CoreShapedOptParams ps ∧ CoreShaped e ∧ CoreShapedBinds rest
+  def CoreShapedOptParams : OptParams → Prop
+    | .none => True
+    | .some ps => CoreShapedParams ps
+  def CoreShapedParams : Params → Prop
+    | .nil => True
+    | .cons _ d rest => CoreShapedOpt d ∧ CoreShapedParams rest
+  def CoreShapedMembers : Members → Prop
+    | .nil => True
+    | .local_ _ ps e rest => CoreShapedOptParams ps ∧ CoreShaped e ∧ CoreShapedMembers rest
+    | .assert_ c m rest => CoreShaped c ∧ CoreShapedOpt m ∧ CoreShapedMembers rest
+    | .fieldFix _ _ _ ps e rest => CoreShapedOptParams ps ∧ CoreShaped e ∧ CoreShapedMembers rest
+    | .fieldDyn n _ _ ps e rest => CoreShaped n ∧ CoreShapedOptParams ps ∧ CoreShaped e ∧ CoreShapedMembers rest
+  def CoreShapedSpecs : Specs → Prop
+    | .nil => True
+    | .for_ _ e rest => CoreShaped e ∧ CoreShapedSpecs rest
+    | .if_ c rest => CoreShaped c ∧ CoreShapedSpecs rest
+end
+
+/-- **C01 (evaluator model), full statement — NOT proved.**  No modelled Rust panic at all is
+    reachable for accepted programs of the shape the front end produces.  `_partial` above covers 7
+    of the model's panic messages; `C01_eval_set_done_assertion_never_fails` (RsjProps/C04Eval.lean)
+    covers `set_done`.  Missing: the identifiers stored in values, environments and fields are in
+    range ("bad thunk id", "bad function id", "attempted to access destroyed object" — needs a typing
+    of values through every postcondition); the binding plan is consistent with the argument lists
+    (three messages of the call code; RsjProofs/Bind.lean has the needed facts); the result kinds of
+    `manifest` / `equals` / `compare` tasks ("task did not return a string", …); a visible field
+    always has a thunk; and "partial_cmp of NaN", which needs facts about `Float` arithmetic that
+    Lean's opaque `Float` does not provide.  Without `CoreShaped` the statement is false:
+    `std.length()` with no argument is accepted by `analyze` and ends in "builtin arity". -/
+def C01_eval_no_internal_error_full : Prop :=
+  ∀ e : Expr, CoreShaped e → analyze e { isObj := false, vars := ["std"] } = .ok () →
+    ∀ (cfg : Cfg) (fuel : Nat) (m : String) (st' : St),
+      programProg cfg fuel e {} ≠ some (.error (.internal m), st')
+
 /-- **C09 (run time), histories.** `runHistory` first builds a store — the root environment with
     `std` and one variable per library, a suspended thunk per library and per source (`historyInit`,
     `runHistory_eq`) — and then serves the requests with `runRequest`.  When the libraries and the
@@ -177,7 +308,7 @@ def demoScoped : St :=
 example : Scoped demoScoped ∧ TaskOk demoScoped.envs (.eval (.var "std") 0 false 0) := by
   have hk : EnvOk demoScoped.envs 0 rootEnv := rootEnv_ok (stdT := 0) (by simp [demoScoped])
   have hw : WS (.var "std") rootEnv := by simp [WS, rootEnv, AEnv.has]
-  refine ⟨⟨?_, ⟨?_, ?_, ?_⟩⟩, ⟨rootEnv, hk, hw⟩⟩
+  refine ⟨⟨?_, ⟨?_, ?_, ?_⟩, ?_⟩, ⟨rootEnv, hk, hw⟩⟩
   · intro e env p h hp
     have : e = 0 := by
       have := lt_size_of_getElem? h
@@ -194,6 +325,7 @@ example : Scoped demoScoped ∧ TaskOk demoScoped.envs (.eval (.var "std") 0 fal
     · simp [demoScoped] at hx; subst hx; exact ⟨rootEnv, hk, hw⟩
   · intro f fn h; simp [demoScoped] at h
   · intro o ob h; simp [demoScoped] at h
+  · intro o ob h; simp [demoScoped] at h
 
 end Rsj.Eval
 
@@ -209,3 +341,7 @@ open Rsj.Eval in
 #print axioms C09_eval_request_keeps_scoped
 open Rsj.Eval in
 #print axioms C09_eval_history_init_scoped
+open Rsj.Eval in
+#print axioms C01_eval_no_internal_error_partial
+open Rsj.Eval in
+#print axioms C01_eval_request_no_internal_error_partial
